@@ -37,7 +37,7 @@ ASSUMPTIONS = [
     "model without the option passes",
     "HDF5 files live in a fresh tempfile.mkdtemp() removed in finally",
 ]
-BUDGET_S = {"quick": 55, "thorough": 780}
+BUDGET_S = {"quick": 48, "thorough": 780}
 _LAYERS = ["QDense", "QConv1D", "QConv2D", "QDepthwiseConv2D", "QSeparableConv1D",
            "QSeparableConv2D", "QSimpleRNN", "QLSTM", "QGRU", "QBidirectional",
            "QActivation", "QAdaptiveActivation", "QBatchNormalization",
